@@ -9,6 +9,7 @@ import Sqfs.Proofs.RbTree
 import Sqfs.Proofs.C19Units
 import Sqfs.Proofs.C19Pool
 import Sqfs.Proofs.C19Deep
+import Sqfs.Proofs.C19Proj
 /-!
 C19 — copies of library objects are well-formed, equivalent, independent and safely destroyable.
 
@@ -651,19 +652,12 @@ theorem copy_independent_mixed (h : Heap) (U : Nat → Nat) (es : List Ev) (y : 
   exact ⟨oy', h1, (congrArg Obj.bufs h2 : oy'.erase.bufs = oy.erase.bufs), (congrArg Obj.views h2 : oy'.erase.views = oy.erase.views),
     (congrArg Obj.refs h2 : oy'.erase.refs = oy.erase.refs)⟩
 
-/-- `copy_independent_interleaved_partial` — **arbitrary interleavings of operations, grabs and releases on both objects**
-(neither side passive): in any admissible history, at every position, an event that is not aimed at `y` — while the user holds
-`y` — leaves `y` with the slots it has *at that moment* and observing what it observes *at that moment*, whatever was done to `y`
-itself before and whatever is done to it afterwards.  So what `y` observes changes only at `y`'s own events: the events on the
-other object (stores, reallocations, releases of its buffers, its destruction) can be deleted from the history without changing
-any single step of `y`'s.
-
-Full statement (projection), NOT proved: `view (runEvs h es) y = view (runEvs h (es.filter (·.target = y))) y`, i.e. `y` after the
-interleaving observes exactly what it observes after its own events alone.  Gap: `reallocSlot` takes buffer ids from a heap-wide
-counter, so the two runs differ by a renaming of `y`'s buffer ids; the step from "every foreign event preserves `y`'s part" (this
-theorem) to the projection needs that `applyOp` on `y` commutes with such renamings (an isomorphism argument over `writeSlot` /
-`reallocSlot` / `releaseSlot`) which is not done. -/
-theorem copy_independent_interleaved_partial (h : Heap) (U : Nat → Nat) (pre post : List Ev) (e : Ev) (y : Nat)
+/-- `copy_independent_interleaved` — **arbitrary interleavings of operations, grabs and releases on both objects** (neither side
+passive), stepwise: in any admissible history, at every position, an event that is not aimed at `y` — while the user holds `y` —
+leaves `y` with the slots it has *at that moment* and observing what it observes *at that moment*, whatever was done to `y` itself
+before and whatever is done to it afterwards.  So what `y` observes changes only at `y`'s own events.  (`copy_independent_projection`
+below is the end-to-end form.) -/
+theorem copy_independent_interleaved (h : Heap) (U : Nat → Nat) (pre post : List Ev) (e : Ev) (y : Nat)
     (hb : Balanced h U) (ha : Admissible U (pre ++ e :: post)) (hne : e.target ≠ y) (hu : 1 ≤ userAfter U pre y) :
     view (runEvs h (pre ++ [e])) y = view (runEvs h pre) y ∧
     ∃ oy oy', (runEvs h pre).objs y = some oy ∧ (runEvs h (pre ++ [e])).objs y = some oy' ∧
@@ -694,8 +688,36 @@ what the file observes at that moment unchanged, and the file's own later releas
 example : view (runEvs exH ([.op 4 (.realloc 0 ⟨8, 8, 1⟩), .grab 0] ++ [.op 4 (.realloc 0 ⟨16, 9, 2⟩)])) 0 =
     view (runEvs exH [.op 4 (.realloc 0 ⟨8, 8, 1⟩), .grab 0]) 0 := by
   obtain ⟨U, hb, h0, _, h4, _⟩ := exH_balanced
-  exact (copy_independent_interleaved_partial exH U [.op 4 (.realloc 0 ⟨8, 8, 1⟩), .grab 0] [.drop 0, .drop 4] (.op 4 (.realloc 0 ⟨16, 9, 2⟩)) 0 hb
+  exact (copy_independent_interleaved exH U [.op 4 (.realloc 0 ⟨8, 8, 1⟩), .grab 0] [.drop 0, .drop 4] (.op 4 (.realloc 0 ⟨16, 9, 2⟩)) 0 hb
     (by simp [Admissible, Ev.user, Ev.target, h4, h0]) (by decide) (by simp [userAfter, Ev.user, h0])).1
+
+/-- `copy_independent_projection` — **"operations on one never affect the other", for every interleaving, end to end**: in any
+admissible history of operations (stores through own pointers, reallocations and releases of own buffers), grabs and releases on any
+objects — original and copy among them, in any order, both being operated on — an object `y` that the user holds throughout observes
+at the end **exactly what it observes after its own events alone**: the events aimed at other objects (including their destruction)
+can be deleted from the history without changing anything `y` can see.  With `copy_balanced` (`y` = the copy, the rest of the history
+on the original, or the other way round) this is the independence clause of the property at full strength.
+Proof (`Sqfs.Proofs.C19Proj`): the two runs take buffer ids from different counters, so `y`'s part of the two heaps agrees up to a
+renaming of buffer ids (`Iso`); `writeSlot` / `reallocSlot` / `releaseSlot` on `y`, `sqfs_grab` and non-final `sqfs_drop` commute with
+such renamings, foreign events preserve `y`'s part (`Ev.apply_keeps`), renamed objects observe the same (`view_iso`).
+`Holds y U es`: the user holds a reference to `y` before and after every event (otherwise a foreign release could decide whether
+`y`'s own last release destroys it). -/
+theorem copy_independent_projection (h : Heap) (U : Nat → Nat) (es : List Ev) (y : Nat)
+    (hb : Balanced h U) (ha : Admissible U es) (hh : Holds y U es) :
+    view (runEvs h es) y = view (runEvs h (es.filter (fun e => e.target = y))) y := by
+  obtain ⟨hl, _⟩ := hb.user_live hh.head
+  obtain ⟨oy, hoy⟩ := Option.isSome_iff_exists.mp hl
+  obtain ⟨hi, hbf⟩ := runEvs_iso y es hb hb rfl (Iso.refl hoy) ha hh
+  exact (view_iso hbf hi).symm
+
+/-- instance: on `exH` the reader (object 4) and the file (object 0) are both operated on, grabbed and released in turn; what the
+reader observes at the end is what it observes after its own four events; and the two runs really differ (the full run has allocated
+and written more) -/
+example : view (runEvs exH [.op 4 (.realloc 0 ⟨8, 8, 1⟩), .grab 0, .op 0 (.store 0 7), .op 4 (.realloc 0 ⟨16, 9, 2⟩), .drop 0, .grab 4, .op 4 (.store 0 5)]) 4 =
+    view (runEvs exH [.op 4 (.realloc 0 ⟨8, 8, 1⟩), .op 4 (.realloc 0 ⟨16, 9, 2⟩), .grab 4, .op 4 (.store 0 5)]) 4 := by
+  obtain ⟨U, hb, h0, _, h4, _⟩ := exH_balanced
+  exact copy_independent_projection exH U [.op 4 (.realloc 0 ⟨8, 8, 1⟩), .grab 0, .op 0 (.store 0 7), .op 4 (.realloc 0 ⟨16, 9, 2⟩), .drop 0, .grab 4, .op 4 (.store 0 5)] 4 hb
+    (by simp [Admissible, Ev.user, Ev.target, h4, h0]) (by simp [Holds, Ev.user, h4])
 
 /-- instance: through all of `exEvs` (which ends with the destruction of the reader) the user's file keeps its slots and is
 observed as before -/
